@@ -273,6 +273,17 @@ func (c *CEnv) ident(name string) cv {
 	if t, ok := constSpec[name]; ok {
 		return cv{V: t}
 	}
+	if c.x.rootFn != nil {
+		pk := c.x.rootFn.Pkg
+		for f := c.x.rootFn; pk == nil && f.Parent() != nil; f = f.Parent() {
+			pk = f.Parent().Pkg
+		}
+		if pk != nil {
+			if nc, ok := pk.Members[name].(*ssa.NamedConst); ok {
+				return cv{V: c.x.constVal(c.curState(), nc.Value), T: nc.Type()}
+			}
+		}
+	}
 	if name == "bondedlist" {
 		c.x.e.declareFun("uf_bondedlist", "() (Array Int String)")
 		return cv{V: T{S: "uf_bondedlist", So: "(Array Int String)"}}
@@ -855,6 +866,39 @@ func (c *CEnv) callFn(e *Expr) cv {
 		return cv{V: app(SInt, "str.to_code", app(SString, "str.at", c.term(e.Args[0]), c.term(e.Args[1])))}
 	case "chr":
 		return cv{V: app(SString, "str.from_code", c.term(e.Args[0]))}
+	case "pad32":
+		// the [32]byte value obtained by copying s into a zeroed array (s truncated to 32 bytes)
+		s := c.term(e.Args[0])
+		var parts []T
+		var lit []byte
+		isConst := s.Segs != nil && len(s.Segs) == 1 && s.Segs[0].Kind == "const"
+		for i := 0; i < 32; i++ {
+			if isConst {
+				if i < len(s.Segs[0].Lit) {
+					lit = append(lit, s.Segs[0].Lit[i])
+				} else {
+					lit = append(lit, 0)
+				}
+				continue
+			}
+			parts = append(parts, app(SString, "str.from_code", Ite(Lt(IntLit(int64(i)), StrLen(s)), app(SInt, "str.to_code", app(SString, "str.at", s, IntLit(int64(i)))), IntLit(0))))
+		}
+		if isConst {
+			return cv{V: T{S: smtStrLit(lit), So: SString}}
+		}
+		return cv{V: Concat(parts...)}
+	case "i64":
+		// uint64 -> int64 reinterpretation
+		t := c.term(e.Args[0])
+		w := app(SInt, "mod", t, BigLit(two64))
+		return cv{V: Ite(Ge(w, BigLit(two63)), Sub(w, BigLit(two64)), w)}
+	case "unwrap":
+		// the value held by an interface value of known dynamic type
+		v := c.eval(e.Args[0])
+		if iv, ok := v.V.(*IfaceV); ok && !iv.Sym && iv.Typ != nil {
+			return cv{V: iv.V, T: iv.Typ}
+		}
+		c.fail("unwrap of %T", v.V)
 	case "strlt":
 		return cv{V: app(SBool, "str.<", c.term(e.Args[0]), c.term(e.Args[1]))}
 	case "unm_Dyn":
